@@ -2,3 +2,5 @@ import Model.Path
 import Model.Spec
 import Model.Basic
 import Model.Layers
+import Model.OS
+import Model.FSI
